@@ -94,7 +94,7 @@ def su():
 CALLS = [
     ('recv_until', b'|', False), ('recv_until', b'|-', False), ('recv_until', b'|', True),
     ('recv_size', 1), ('recv_size', 2), ('recv_size', 3), ('peek', 2), ('recv', 1), ('recv', 2), ('recv_close',),
-    ('recv_until', b'--', True),
+    ('recv_until', b'--', True), ('recv_until', b'|-|', False),
 ]
 
 
@@ -450,10 +450,17 @@ def run(ctx):
         # cross-call state is what recv_until / recv_size leave in the buffer)
         pass
     shards = []
+    singles = [p for p in progs if len(p) == 1]
     for i in range(0, len(streams), 4):
         chunk = streams[i:i + 4]
-        for j in range(0, len(progs), 33):
-            shards.append((chunk, progs[j:j + 33], recvsizes, maxsizes, maxspecial))
+        short = [x for x in chunk if len(x) <= 3]
+        longer = [x for x in chunk if len(x) > 3]
+        # quick: two-call programs on every stream of length <= 3, single calls on length 4 as well
+        if short:
+            for j in range(0, len(progs), 39):
+                shards.append((short, progs[j:j + 39], recvsizes, maxsizes, maxspecial))
+        if longer:
+            shards.append((longer, singles, recvsizes, maxsizes, maxspecial))
     if not quick:
         shards = []
         for s in streams:
@@ -486,7 +493,7 @@ def run(ctx):
     cov = ctx.coverage
     cov['rule'] = 'see parts; one evaluation = one execution of the real socket code against one scripted environment'
     cov['exhaustive'] = True
-    cov['bounds'] = {'stream_alphabet': ['a', '|', '-'], 'max_stream_len': maxlen, 'recvsize': [1, 2, 'default'],
+    cov['bounds'] = {'stream_alphabet': ['a', '|', '-'], 'max_stream_len': maxlen, 'quick_two_call_programs_on_streams_up_to': 3, 'recvsize': [1, 2, 'default'],
                      'maxsize': [2, 3, 'default'], 'timeouts_per_execution': maxspecial, 'program_len': 2,
                      'send_program_len': nops, 'netstring_payload_len': nmax}
     ctx.assumptions += ['the socket is any object with recv/send/settimeout/gettimeout (as the module documents)',
